@@ -11,6 +11,9 @@ func init() {
 	vHarnesses["H_C04_catch"] = H_C04_catch
 	vHarnesses["H_C09_history"] = H_C09_history
 	vHarnesses["H_C11_allsol"] = H_C11_allsol
+	vHarnesses["H_C02_pair"] = H_C02_pair
+	vHarnesses["H_C02_rep"] = H_C02_rep
+	vHarnesses["H_C10_gen"] = H_C10_gen
 	vHarnesses["H_C10_store"] = H_C10_store
 	vHarnesses["H_C10_text"] = H_C10_text
 	vHarnesses["H_C10_bootstrap"] = H_C10_bootstrap
@@ -68,4 +71,23 @@ func H_C10_bootstrap(inst int) {
 func H_C11_allsol(inst int) {
 	i := newFull()
 	engine.VH_C11(&i.VM, inst)
+}
+
+// H_C10_gen: generated heads x disjunctive bodies: each stored clause denotes Head :- Alternative_i.
+func H_C10_gen(inst int) {
+	i := newFull()
+	engine.VH_C10_gen(&i.VM, inst)
+}
+
+// H_C02_pair: a pair of term templates with symbolic leaves: =/2, unify_with_occurs_check/2, head unification
+// against a reference Robinson unifier, symmetry, persistence of the caller's environment.
+func H_C02_pair(inst int) {
+	i := newFull()
+	engine.VH_C02_pair(&i.VM, inst)
+}
+
+// H_C02_rep: the same abstract list built through two constructor paths behaves as one term.
+func H_C02_rep(inst int) {
+	i := newFull()
+	engine.VH_C02_rep(&i.VM, inst)
 }
